@@ -76,6 +76,10 @@ class Markers(object):
                                "M205 X%d Y-0"]).replace("%d", str(n), 1).replace("%d", str(n + 5000))
         if code == "M900":
             return rnd.choice(["M900 K%d", "M900 K%d", "M900 K T%d", "M900 K%d L%d"]).replace("%d", str(n), 1).replace("%d", str(n + 5000))
+        if code in MERGEABLE and code != "G4" and rnd.random() < 0.08:
+            # magnitudes whose float repr is in exponent notation: the merged command still carries exactly these values
+            return "%s %s" % (code, rnd.choice(["S0.0000%d", "S0.00000%d J0.0000004", "S%d0000000000000000", "S%d.5 T123456789012345678",
+                                                "S0.000051 T%d"]).replace("%d", str(n)))
         if code == "M220":
             return "M220 S%d" % n
         return "%s S%d" % (code, n)
@@ -238,7 +242,7 @@ def build_case(rnd, tier, for_c15=False):
     for pi in range(nprints):
         steps.append(["event", EV_START])
         feats = mk(rel=rnd.random() < 0.3, inch=rnd.random() < 0.2, at=True, fw=rnd.random() < 0.2, p_inside=0.5, extgen=marks,
-                   p_ext=0.05, ext=False, zmoves=True, retmove=rnd.random() < 0.5, beds=False)
+                   p_ext=0.05, ext=False, zmoves=True, retmove=rnd.random() < 0.5, beds=False, hv=rnd.random() < 0.1)
         if feats["fw"]:
             feats["fwparam"] = ""
         _, g = gen_program(rnd, feats, settings, nsteps=rnd.randint(10, 70), regions=regs)
